@@ -368,7 +368,7 @@ func (e *executor) completeValue(fieldType schema.Type, fields []*ast.Field, res
 			if r.IsOk() && r.Value == nil {
 				return future.Err[any](newErrorWithPath(fields[0], pathIn, "Null result for non-null field."))
 			}
-			return future.Ok[any](r.Value)
+			return fut
 		}
 		return future.Map(fut, func(r future.Result[any]) future.Result[any] {
 			if r.IsOk() && r.Value == nil {
